@@ -280,7 +280,8 @@ PORDERS = [(0, 1, 2), (0, 2, 1), (1, 0, 2), (1, 2, 0), (2, 0, 1), (2, 1, 0)]
               "(an unregistered one is an ordinary cap the simulator grants): the upstream request is the viewer's request "
               "minus exactly the registered proxy-only names (order kept), the rewritten response keeps every "
               "simulator-granted cap and presents the proxy's URL of every requested registered proxy-only cap, and each of "
-              "those URLs resolves to that cap on that region", covers=COVERS)
+              "those URLs resolves to that cap on that region; after the round trip each proxy-only capability is still registered "
+              "as such and registering it again yields the same URL", covers=COVERS)
 def seed_adjacent_proxy_caps(order: int, req_mask: int, reg_mask: int) -> bool:
     reset_caps()
     ctx, mgr = hx.fresh_http()
@@ -321,6 +322,10 @@ def seed_adjacent_proxy_caps(order: int, req_mask: int, reg_mask: int) -> bool:
     for n, u in proxy_urls.items():
         got = px.SM.resolve_cap(u + "/req")
         if not got or got.cap_name != n or got.type != CapType.PROXY_ONLY or got.region is None or got.region() is not region:
+            return False
+        # the seed round trip leaves the proxy-only registration as it was: same type by name, and registering the
+        # capability again still yields the same URL
+        if region.caps[n] != (CapType.PROXY_ONLY, u) or region.register_proxy_cap(n) != u:
             return False
     return all(region.cap_urls.get(n) == u for n, u in granted.items())
 
